@@ -31,7 +31,11 @@ func (r *Router) Definition() J {
 		x := J{"uuid": exitUUID(i)}
 		if i < len(r.ExitDest) && r.ExitDest[i] {
 			x["destination_uuid"] = destUUID(i)
-			nodes = append(nodes, J{"uuid": destUUID(i), "actions": []any{}, "exits": []any{J{"uuid": world.UUID(fmt.Sprintf("c07-d%d-e", i))}}})
+			dx := J{"uuid": world.UUID(fmt.Sprintf("c07-d%d-e", i))}
+			if len(r.Revisit) > 0 {
+				dx["destination_uuid"] = nodeUUID // back to the router, which waits for the next message
+			}
+			nodes = append(nodes, J{"uuid": destUUID(i), "actions": []any{}, "exits": []any{dx}})
 		}
 		exits = append(exits, x)
 	}
@@ -82,9 +86,47 @@ func (r *Router) Definition() J {
 		n0["router"] = router
 	}
 	nodes[0] = n0
+	if r.LangVia != "" {
+		// the run localizes a text under the contact's first language, then the language is changed, then
+		// the router is reached
+		var change J
+		switch r.LangVia {
+		case "action":
+			change = setLanguageAction(world.UUID("c07-pre-setlang"), r.Lang)
+		case "child":
+			change = J{"uuid": world.UUID("c07-pre-enter"), "type": "enter_flow", "flow": J{"uuid": childFlowUUID, "name": "Child"}}
+		default:
+			panic("c07: unknown lang_via " + r.LangVia)
+		}
+		nodes = append([]any{
+			J{"uuid": preMsgNode, "actions": []any{J{"uuid": world.UUID("c07-pre-msg"), "type": "send_msg", "text": "hello"}},
+				"exits": []any{J{"uuid": world.UUID("c07-pre0-e"), "destination_uuid": preChangeNode}}},
+			J{"uuid": preChangeNode, "actions": []any{change},
+				"exits": []any{J{"uuid": world.UUID("c07-pre1-e"), "destination_uuid": nodeUUID}}},
+		}, nodes...)
+	}
 	return J{
 		"uuid": flowUUID, "name": "Subject", "spec_version": "13.6.0", "language": langBase, "type": "messaging",
 		"localization": loc, "nodes": nodes,
+	}
+}
+
+var (
+	childFlowUUID = world.UUID("c07-child-flow")
+	preMsgNode    = world.UUID("c07-pre0")
+	preChangeNode = world.UUID("c07-pre1")
+)
+
+func setLanguageAction(uuid, lang string) J {
+	return J{"uuid": uuid, "type": "set_contact_language", "language": lang}
+}
+
+// ChildDefinition is the child flow of LangVia "child": its only node sets the contact's language.
+func (r *Router) ChildDefinition() J {
+	return J{
+		"uuid": childFlowUUID, "name": "Child", "spec_version": "13.6.0", "language": langBase, "type": "messaging",
+		"nodes": []any{J{"uuid": world.UUID("c07-child-n0"), "actions": []any{setLanguageAction(world.UUID("c07-child-setlang"), r.Lang)},
+			"exits": []any{J{"uuid": world.UUID("c07-child-e0")}}}},
 	}
 }
 
@@ -134,15 +176,32 @@ func indexOf(uuid string, n int, f func(int) string) int {
 	return -2
 }
 
-// Execute runs the router on the real engine and reports what happened at the subject node.
+// Execute runs the router on the real engine and reports what happened at the subject node on its
+// last routing.
 func (r *Router) Execute() *Observed {
-	o := &Observed{Exit: -1, NextDest: -1}
-	sa, err := lab.NewSA(r.Definition())
-	if err != nil {
-		o.HarnessErr = "assets: " + err.Error()
-		return o
+	obs := r.ExecuteVisits()
+	return obs[len(obs)-1]
+}
+
+// ExecuteVisits runs the router on the real engine - one live session, never re-read - and reports
+// what happened at the subject node on every routing (one, unless the router is revisited), each
+// observed right after the sprint that routed it. It stops at the first routing after which the
+// session no longer waits.
+func (r *Router) ExecuteVisits() []*Observed {
+	fail := func(o *Observed) []*Observed { return []*Observed{o} }
+	defs := []J{r.Definition()}
+	if r.LangVia == "child" {
+		defs = append(defs, r.ChildDefinition())
 	}
-	trig := lab.Trigger{Flow: flowUUID, Contact: contactJSON(r.Lang), Env: envJSON()}
+	sa, err := lab.NewSA(defs...)
+	if err != nil {
+		return fail(&Observed{Exit: -1, NextDest: -1, HarnessErr: "assets: " + err.Error()})
+	}
+	firstLang := r.Lang
+	if r.LangVia != "" {
+		firstLang = otherLang(r.Lang)
+	}
+	trig := lab.Trigger{Flow: flowUUID, Contact: contactJSON(firstLang), Env: envJSON()}
 	var resumes []string
 	if r.Wait {
 		trig.Kind = "manual"
@@ -150,11 +209,35 @@ func (r *Router) Execute() *Observed {
 			resumes = []string{"timeout"}
 		} else {
 			resumes = []string{"msg:" + r.Operand.Input}
+			for _, t := range r.Revisit {
+				resumes = append(resumes, "msg:"+t)
+			}
 		}
 	} else {
 		trig.Kind, trig.MsgText = "msg", r.Operand.Input
 	}
-	x := lab.Exec(sa, trig.JSON(), r.Draw, resumes...)
+	var obs []*Observed
+	sprint := 0
+	x := lab.ExecEach(sa, trig.JSON(), r.Draw, func(x *lab.Run) bool {
+		sprint++
+		if r.Wait && sprint == 1 {
+			return true // the sprint that reaches the wait
+		}
+		o := r.observe(x, len(obs))
+		obs = append(obs, o)
+		return o.HarnessErr == "" && o.SessStatus == string(flows.SessionStatusWaiting)
+	}, resumes...)
+	if x.Panic != "" || x.Err != nil || len(obs) == 0 {
+		// the call that failed was not observed by the callback
+		obs = append(obs, r.observe(x, len(obs)))
+	}
+	return obs
+}
+
+// observe reports what the engine did on the (visit+1)-th routing of the subject node, given the
+// session right after the sprint that routed it.
+func (r *Router) observe(x *lab.Run, visit int) *Observed {
+	o := &Observed{Exit: -1, NextDest: -1}
 	o.Panic = x.Panic
 	o.Draws = x.Draws
 	if x.Err != nil {
@@ -169,23 +252,42 @@ func (r *Router) Execute() *Observed {
 	}
 	o.SessStatus = string(x.Session.Status())
 	runs := x.Session.Runs()
-	if len(runs) != 1 {
-		o.HarnessErr = fmt.Sprintf("expected exactly one run, have %d", len(runs))
+	wantRuns := 1
+	if r.LangVia == "child" {
+		wantRuns = 2
+	}
+	if len(runs) != wantRuns {
+		o.HarnessErr = fmt.Sprintf("expected exactly %d run(s), have %d", wantRuns, len(runs))
 		return o
 	}
 	run := runs[0]
 	o.RunStatus = string(run.Status())
 	path := run.Path()
-	o.Steps = len(path)
-	if len(path) > 0 {
-		if string(path[0].NodeUUID()) != nodeUUID {
-			o.HarnessErr = "first step is not the subject node"
-			return o
+	// the step of this routing: the (visit+1)-th step at the subject node
+	k, seen := -1, 0
+	for i, st := range path {
+		if string(st.NodeUUID()) == nodeUUID {
+			if seen == visit {
+				k = i
+				break
+			}
+			seen++
 		}
-		o.Exit = indexOf(string(path[0].ExitUUID()), r.NExits, exitUUID)
 	}
-	if len(path) > 1 {
-		o.NextDest = indexOf(string(path[1].NodeUUID()), r.NExits, destUUID)
+	if r.LangVia == "" && len(path) > 0 && string(path[0].NodeUUID()) != nodeUUID {
+		o.HarnessErr = "first step is not the subject node"
+		return o
+	}
+	if k < 0 {
+		if o.Panic == "" && o.EngineErr == "" {
+			o.HarnessErr = fmt.Sprintf("the subject node was not reached for routing %d", visit+1)
+		}
+		return o
+	}
+	o.Steps = len(path) - k
+	o.Exit = indexOf(string(path[k].ExitUUID()), r.NExits, exitUUID)
+	if len(path) > k+1 {
+		o.NextDest = indexOf(string(path[k+1].NodeUUID()), r.NExits, destUUID)
 	}
 	if sp := x.Last(); sp != nil {
 		for _, s := range sp.Segments() {
